@@ -11,6 +11,8 @@ func init() {
 			"ALL subsets F of k<=5 (quick) / k<=8 (thorough) entities in one batch x M in {0,1,2,3,9}, the same subsets split over batch sizes 1..3, transient budgets 1,2; plus seeded cases with k<=40; every 7th case as fullsync; a few per child through the real '@every 1s' cron trigger; a separate stage repeats a smaller enumeration with a JS transform in the pipeline. " +
 			"refire: for every non-empty F (k>=2), b in {1,2,k}, M in {0,2}: the same job object is executed again (as a further cron tick would) while the run waits for the sink's answer to its 2nd / 3rd / every later request; the extra execution must be skipped without effect on the counts of the run in progress. " +
 			"failing-then-clean: the same job object is executed 3-4 times (as consecutive cron ticks), the sink is down during the first 1-2 executions and healthy afterwards, k in {3,5(,8)} x b in {1,2,k} x M in {0,1,2} x transform on/off x incremental/fullsync; a clean execution (sink offered something, rejected nothing, nothing reported) must be recorded without error and must not be followed by a re-execution (executions that offer nothing are not judged). " +
+			"two triggers of one job type: a second trigger (cron with another schedule, or onchange) of the same jobType with a different log-handler maxItems ((1,0),(0,1),(1,3),(2,0)), every failing set with >= 2 entities whose first member lies in the first batch, k in {3,5}; one execution per trigger, either order; each execution is judged against its OWN trigger's maxItems and, as both read the whole source, for complete delivery. " +
+			"killed full syncs: fullsync-type trigger with reRun (alone / next to log), killed at the first request or after a reported rejection; a run counts as killed when the hub logged its termination or when it failed with the interrupt error of its cancelled context. " +
 			"several triggers inside one retry delay: a permanently failing job (reRun alone / capped log + reRun, maxRetries 1..3, delay 400 ms / 1 s) is triggered 2-3 times back to back on the same job object; re-executions made by the reRun handler (executions beyond the triggers, and the hub's own 're-running job' lines) must stay <= maxRetries in total - the budget belongs to the job, not to the trigger. " +
 			"rerun: transform on/off x capped log + reRun with the sink down during the first 1-2 executions; reRun handler (alone / next to log) x maxRetries 1..3 x sink failing the first t in {0,1,2,3,all} runs x kill (at the first request, and after the log handler has already reported a rejected entity of the killed run), with retryDelay 1 s (real) and patched 40/150 ms. " +
 			"Jobs are built by the scheduler from JSON (AddJob) and executed exactly as cron executes them (jobrunner.New(job).Run()), because RunJob drops error handlers. " +
